@@ -115,7 +115,8 @@ class Corpus:
             self.programs[name] = {"kind": "kernel"}
         if want_random:
             import gen
-            n = 6 if tier == "quick" else 40
+            import refsem
+            n = 8 if tier == "quick" else 40
             accepted = 0
             for i, text in enumerate(gen.random_programs(seed, n)):
                 if accepted >= n:
@@ -128,6 +129,10 @@ class Corpus:
                 open(os.path.join(d, "src", name + ".eql"), "w").write(text)
                 p = sh([eqlog_exe, os.path.join(d, "src"), os.path.join(d, "out")], timeout=120)
                 if p.returncode == 0:
+                    try:
+                        refsem.reference(text)
+                    except Exception:
+                        continue          # outside the reference parser: not part of the corpus
                     shutil.copy(os.path.join(d, "src", name + ".eql"), os.path.join(self.src, name + ".eql"))
                     self.programs[name] = {"kind": "random"}
                     self.meta.setdefault(name, {"terminates": "!" not in text})
